@@ -363,6 +363,11 @@ class Gen:
             self.count("tagged:nondefault")
         if d.array:
             choices = ["empty", "one", "many"] + (["null"] if d.nullable else [])
+            if getattr(self, "null_arrays", False) and d.tag is None and not d.nullable and r.random() < 0.12:
+                # the wire format has a null form for EVERY array (Kafka declares several arrays of primitives nullable that
+                # the generated annotations do not): wire-first streams include it
+                self.count("array:null-although-annotated-non-nullable")
+                return NULL
             if d.tag is not None and want_default is False:
                 choices = ["one", "many"]          # a non-default tagged array is non-empty
             c = r.choice(choices)
